@@ -112,7 +112,7 @@ impl Entry {
 }
 // Blob::headers_to_entries: one Entry per header, same order
 #[verifier::external_body]
-pub fn headers_to_entries(headers: Vec<RecordHeader>, file: &File, name: &()) -> (r: Vec<Entry>)
+pub fn headers_to_entries(headers: Vec<RecordHeader>, file: &File, name: &BlobFileName) -> (r: Vec<Entry>)
     ensures r@.len() == headers@.len(), forall|i: int| 0 <= i < r@.len() ==> (#[trigger] r@[i]).hdr() == headers@[i]
         && r@[i].stored_meta() == hdr_meta(*file, headers@[i])
 { unimplemented!() }
